@@ -81,6 +81,15 @@ let run_case (f : string array) : string =
   match op with
   | "skip" -> let d = unhex f.(1) in okp (x_skipValue d (stack_or_empty f.(2))) (List.length d)
   | "skipfast" -> let d = unhex f.(1) in okp (x_skipValueFast d (stack_or_empty f.(2))) (List.length d)
+  | "skipboth" ->
+    (* C11 stated directly: where the strict skipper succeeds the fast one succeeds with the same offset *)
+    let d = unhex f.(1) in
+    (match x_skipValue d [], x_skipValueFast d [] with
+     | MDone (p, None, _), MDone (q, None, _) when p = q -> "ok " ^ string_of_z p
+     | MDone (_, Some _, _), MDone _ -> "strict-err"
+     | MDone (p, None, _), MDone (q, None, _) -> "DISAGREE " ^ string_of_z p ^ " " ^ string_of_z q
+     | MDone (p, None, _), MDone (_, Some _, _) -> "DISAGREE " ^ string_of_z p ^ " err"
+     | _ -> "abn # model")
   | "valid" ->
     (match fst (x_Valid (unhex f.(1)) (parse_stack f.(2))) with
      | Some b -> b2s b | None -> "abn # model")
